@@ -196,8 +196,10 @@ def parent_main(args) -> int:
     }
     if exhaustive:
         evidence["coverage"]["exhaustive"] = True
-    os.makedirs(os.path.join(env.VERIF_DIR, "evidence"), exist_ok=True)
-    with open(os.path.join(env.VERIF_DIR, "evidence", f"{args.prop}.json"), "w") as f:
+    # evidence describes /repo itself; runs against another tree (mutants, seeded changes) go to a scratch directory
+    ev_dir = os.path.join(env.VERIF_DIR, "evidence") if env.REPO_DIR == "/repo" else os.path.join(env.VERIF_DIR, ".scratch", "evidence")
+    os.makedirs(ev_dir, exist_ok=True)
+    with open(os.path.join(ev_dir, f"{args.prop}.json"), "w") as f:
         json.dump(evidence, f, indent=1, sort_keys=True, default=str)
     print(f"{args.prop} {args.tier} seed={args.seed}: {merged['evaluations']} cases, "
           f"{len(merged['nontrivial'])} distinct non-trivial, {len(seen)} violation(s), "
